@@ -383,6 +383,23 @@ func (ev *evaluator) eval(e *gen.Expr) interface{} {
 		}
 		ev.alloc += len(e.Kids)
 		return out
+	case "mapc":
+		out := map[string]interface{}{}
+		k := 0
+		n := 0
+		for _, p := range strings.Split(r.Arg, ",") {
+			if p == "*" {
+				key := ev.kid(e, k).(string)
+				out[key] = ev.kid(e, k+1)
+				k += 2
+			} else {
+				out[p] = ev.kid(e, k)
+				k++
+			}
+			n++
+		}
+		ev.alloc += n
+		return out
 	case "builtin":
 		return ev.builtin(e)
 	}
